@@ -410,6 +410,37 @@ fn declares_huge_size(bytes: &[u8]) -> bool {
     false
 }
 
+/// A reader object that, for one input in three, has already been used on ill-formed inputs (failing in the
+/// argument section, in the attack section, on the header, on invalid UTF-8): reader objects are reusable,
+/// whatever an earlier call left behind must not show in the next one.
+pub fn used_iccma_reader(used: bool) -> Iccma23Reader {
+    let r = Iccma23Reader::default();
+    if used {
+        let poison: [&[u8]; 4] = [b"p af 3\n1 2\nx y\n", b"p af 2\n1 2\n3 1\n", b"p af\n", b"p af 2\n1 \xff\n"];
+        for p in poison {
+            let _ = std::panic::catch_unwind(std::panic::AssertUnwindSafe(|| {
+                let mut p = p;
+                let _ = r.read(&mut p);
+            }));
+        }
+    }
+    r
+}
+
+pub fn used_aspartix_reader(used: bool) -> AspartixReader {
+    let r = AspartixReader::default();
+    if used {
+        let poison: [&[u8]; 4] = [b"arg(stale_x).\narg(stale_y).\narg(1bad).\n", b"arg(stale_x).\natt(stale_x,\n", b"arg(stale_z).\natt(stale_z,nobody).\n", b"arg(stale_w).\narg(\xff).\n"];
+        for p in poison {
+            let _ = std::panic::catch_unwind(std::panic::AssertUnwindSafe(|| {
+                let mut p = p;
+                let _ = r.read(&mut p);
+            }));
+        }
+    }
+    r
+}
+
 /// The oracle shared with the fuzz target. Returns a class name for statistics.
 pub fn check_bytes(fmt: u8, bytes: &[u8]) -> Result<&'static str, Failure> {
     let name = if fmt == 0 { "iccma23" } else { "aspartix" };
@@ -418,9 +449,10 @@ pub fn check_bytes(fmt: u8, bytes: &[u8]) -> Result<&'static str, Failure> {
         return Ok("excluded-declared-size-too-large");
     }
     let data = bytes.to_vec();
+    let used = bytes.len() % 3 == 0;
     let got: Result<Option<RefGraph>, String> = guard(move || {
         if fmt == 0 {
-            Iccma23Reader::default().read(&mut data.as_slice()).ok().map(|af| {
+            used_iccma_reader(used).read(&mut data.as_slice()).ok().map(|af| {
                 // read_arg_from_str on every declared index and around the range
                 let n = af.n_arguments();
                 for k in 0..=n + 1 {
@@ -438,7 +470,7 @@ pub fn check_bytes(fmt: u8, bytes: &[u8]) -> Result<&'static str, Failure> {
                 observed(&af)
             })
         } else {
-            AspartixReader::default().read(&mut data.as_slice()).ok().map(|af| {
+            used_aspartix_reader(used).read(&mut data.as_slice()).ok().map(|af| {
                 for a in af.argument_set().iter() {
                     let r = AspartixReader::default().read_arg_from_str(&af, a.label()).map(|x| x.id());
                     if r.ok() != Some(a.id()) {
